@@ -28,14 +28,28 @@ UNIT = ()
 class Agg:
     """struct / tuple / closure environment / array-of-fixed-size when ty == 'array'."""
 
-    __slots__ = ("ty", "f")
+    __slots__ = ("ty", "f", "g")
 
-    def __init__(self, ty, f):
+    def __init__(self, ty, f, g=None):
         self.ty = ty
         self.f = f
+        self.g = g
 
     def __repr__(self):
         return "%s%r" % (self.ty.split("::")[-1] if self.ty else "", tuple(self.f))
+
+
+class ClosureAgg(Agg):
+    """closure / coroutine environment with named captures"""
+
+    __slots__ = ("names",)
+
+    def __init__(self, ty, f, names):
+        Agg.__init__(self, ty, f)
+        self.names = names
+
+    def cap(self, name):
+        return self.f[self.names.index(name)]
 
 
 class Enum:
@@ -300,8 +314,10 @@ def deref_all(v):
 
 def copyval(v):
     """Value copy for `copy` operands / by-value aggregates (no heap ownership involved)."""
+    if isinstance(v, ClosureAgg):
+        return ClosureAgg(v.ty, [copyval(x) for x in v.f], v.names)
     if isinstance(v, Agg):
-        return Agg(v.ty, [copyval(x) for x in v.f])
+        return Agg(v.ty, [copyval(x) for x in v.f], v.g)
     if isinstance(v, Enum):
         return Enum(v.ty, v.d, [copyval(x) for x in v.f], v.vn)
     return v
@@ -312,8 +328,10 @@ def clone_value(v):
     and of Clone on std containers."""
     if isinstance(v, (int, str, bool, float, tuple)) or v is None:
         return v
+    if isinstance(v, ClosureAgg):
+        return ClosureAgg(v.ty, [clone_value(x) for x in v.f], v.names)
     if isinstance(v, Agg):
-        return Agg(v.ty, [clone_value(x) for x in v.f])
+        return Agg(v.ty, [clone_value(x) for x in v.f], v.g)
     if isinstance(v, Enum):
         return Enum(v.ty, v.d, [clone_value(x) for x in v.f], v.vn)
     if isinstance(v, VecV):
